@@ -1,6 +1,7 @@
 """C18 - environment variables are a fallback below the command line."""
 from vlib import *
 import defs as D, cmdline_sig
+from cmdline_sig import bad_for, alt_env_sig
 from cmdline_check import run_cmdline_property, merge_cov
 
 
@@ -22,16 +23,6 @@ def enrich(cases, out):
             w.write(json.dumps(c2) + "\n")
             n += 1
     return {"cases_with_undeclared_variable": n}
-
-
-def bad_for(it, val):
-    if val in ("UNSET", None):
-        return False
-    if it["vt"] == "int" and val not in ("0", "1", "2", "3", "4", "5"):
-        return True
-    if it["vt"] == "str" and "%FF" in val:
-        return True
-    return bool(it["guard"]) and val == "2"
 
 
 def sig(m):
@@ -65,19 +56,7 @@ def run(v):
     # environment-backed items inside the branches of a choice (GroupLine engine)
     q = v.tier == "quick"
     gfam = D.alt_env_family(SEED + 185, 16 if q else 80, maxlen=2 if q else 3, budget=1500 if q else 12000)
-    def gsig(m):
-        """F18: a member of one branch is absent from the line, its variable holds a value that fails conversion or
-        the guard, and the run succeeds through another branch instead of failing"""
-        s = cmdline_sig.signature(m)
-        env = m.get("env") or {}
-        d = m.get("def_full") or {}
-        typed = {x.get("s") for x in m.get("line", [])}
-        if isinstance(d, dict) and s["expect"] == "stderr" and s["got"] == "ok" and s.get("why") in ("conv", "guard"):
-            for f in d["named"]:
-                for it in (D.field_leaves(f) if f["kind"] == "alt" else []):
-                    if it["kind"] == "arg" and it["env"] and bad_for(it, env.get(it["env"])) and not (typed & set(it["shorts"] + it["longs"])):
-                        return {"rule": "invalid_env_value_masked_by_another_alternative"}
-        return s
+    gsig = alt_env_sig
     gcov = run_cmdline_property(v, gfam, None, replay_cfg="MC_GroupLine_replay.cfg", module="MC_GroupLine", signature=gsig,
                                 enrich=enrich, trace_module="GroupLineTrace", name="C18g")
     cov = merge_cov(cov, gcov, "groupline")
